@@ -110,7 +110,7 @@ pub fn phases(cfg: &Cfg) -> Vec<Box<dyn Phase>> {
             hook_every: 0,
         }),
         Box::new(Mutations {
-            n: cfg.n(300_000, 10_000_000),
+            n: cfg.n(1_000_000, 10_000_000),
         }),
     ]
 }
